@@ -113,6 +113,21 @@ def forms_for(cls_name, full=True):
     for p in ("is_full", "is_locked", "num_cancelled", "num_ended", "num_running"):
         prop(p)
     prop("pool_size", [("0", 0), ("1", 1), ("3", 3), ("-1", -1)])
+    if cls_name == "ExtTaskPool":
+        # members a subclass adds: plain/coroutine/static/class methods, read-only and read/write properties
+        F.clear()
+        add("extra_method", [], [("--count", "count", [("0", 0), ("5", 5)])])
+        add("extra_coro_method", [[("abc", "abc"), ("x", "x")]])
+        add("build_info", [], [("--verbose", "verbose", [(None, True)])])
+        add("describe_class", [], [("--short", "short", [(None, True)])])
+        add("undocumented", [], [("--prefix", "prefix", [("p", "p")])])
+        add("with_h_option", [[("3", 3)]], [("--hint", "hint", [("hh", "hh")]), ("--verbose", "verbose", [(None, True)])])
+        prop("extra_readonly")
+        prop("undocumented_prop")
+        prop("extra_value", [("0", 0), ("4", 4)])
+        prop("num_running")
+        add("lock")
+        return F
     if simple:
         prop("func_name")
         add("start", [[("0", 0), ("1", 1), ("2", 2)]])
@@ -138,6 +153,9 @@ def forms_for(cls_name, full=True):
 
 def history_alphabet(cls_name):
     """Reduced alphabet that builds the states in which all test commands are tried."""
+    if cls_name == "ExtTaskPool":
+        allf = {f.line: f for f in forms_for(cls_name)}
+        return [allf["extra-value 4"], allf["lock"]]
     simple = "Simple" in cls_name
     allf = {f.line: f for f in forms_for(cls_name)}
     if simple:
@@ -294,7 +312,7 @@ def run(tier, seed):
     depth = 1 if tier == "quick" else 2
     work = []
     bfs_trans = 0
-    for cls_name in ("TaskPool", "SimpleTaskPool"):
+    for cls_name in ("TaskPool", "SimpleTaskPool", "ExtTaskPool"):
         for size in ([2] if tier == "quick" else [1, 3]):
             states, tr = bfs_states(cls_name, size, depth)
             bfs_trans += tr
@@ -307,7 +325,7 @@ def run(tier, seed):
         for k, vs in pool.imap_unordered(explore_state, work, chunksize=1):
             n += k
             viols += vs
-    nforms = {c: len(forms_for(c)) for c in ("TaskPool", "SimpleTaskPool")}
+    nforms = {c: len(forms_for(c)) for c in ("TaskPool", "SimpleTaskPool", "ExtTaskPool")}
     return {
         "violations": viols,
         "states": len(work),
